@@ -7,9 +7,10 @@ V = '/verif'
 props = [json.loads(l)['id'] for l in open(V + '/properties.jsonl')]
 
 COMMON_NOTE = ('Trusted base: rustc nightly MIR at mir_promoted (opt-level 0, overflow checks), the rule code in /verif/rules (including the normalisation of rules/inline.py: '
-               'functions that do not exist on the pinned tree are spliced into their callers, constant returns are threaded, combinators over new closures are expanded), the spec tables '
+               'functions that do not exist on the pinned tree are spliced into their callers, constant returns are threaded, combinators over new closures are expanded; and of rules/canon.py: '
+               'renamed private fields / functions are mapped back to the pinned names by type, signature and structure), the spec tables '
                'in /verif/spec, the extern-effect summaries of ntex-io/ntex-bytes/ntex-util/std calls. cfg(test) code is not analysed. Rules fail closed (anchor-lost) when an anchored '
-               'function disappears or is renamed, or an enumeration becomes vacuous; an expression a secondary lemma cannot interpret is reported as undecided (counted in the evidence), not as a violation. ')
+               'function disappears (a pure rename is recognised), or an enumeration becomes vacuous; an expression a secondary lemma cannot interpret is reported as undecided (counted in the evidence), not as a violation. ')
 
 CLAIMS = {
     'C06': dict(
